@@ -11,7 +11,7 @@ open YaegiVerif.Method
     16a5ac7 (a value stored in an interface is copied), 32d4f06 (the receiver of a method selected on
     the value held by an interface is reached at each call), f4dfaf4 (several fields at the shallowest
     depth: ambiguous), 79ed061 (implements tests the receiver kind), 5c3b0c5 (type switch cases checked,
-    pointer-receiver rejection for own methods only), 6b1f98f (and for promoted methods that need a pointer), bbd3913 (assertion to a host interface wraps the
+    pointer-receiver rejection for own methods only), 6b1f98f (and for promoted methods that need a pointer), 9f81224 (type switch clauses matched by matchCase on the dynamic type), bbd3913 (assertion to a host interface wraps the
     held value) -/
 def facts : Facts :=
   { defaultSwap := false,
@@ -29,6 +29,7 @@ def facts : Facts :=
     assertPtrOwnOnly := true,
     assertPtrNeedsPtr := true,
     tswitchCasesChecked := true,
+    caseUsesMatchCase := true,
     assertHostWrapsHeld := true,
     wrapperUsesMethodSet := true,
     recvBind := { atCreation := true, ptrToVal := .set, valToPtr := .slot, same := .set, call := .set,
@@ -59,6 +60,7 @@ def oldFacts : Facts :=
     assertPtrOwnOnly := false,
     assertPtrNeedsPtr := false,
     tswitchCasesChecked := false,
+    caseUsesMatchCase := false,
     assertHostWrapsHeld := false,
     wrapperUsesMethodSet := true,
     recvBind := { atCreation := false, ptrToVal := .set, valToPtr := .set, same := .set, call := .slot,
@@ -95,8 +97,8 @@ def sourceHashes : List (String × String) :=
    ("matchSelectorMethod", "de85f05001daa03f"),
    ("getDefault", "e432131cb00f89f6"),
    ("typeAssert", "90e50bd038426751"),
-   ("_case", "60fb01345bd252bd"),
-   ("implementsInterface", "596e652087668932"),
+   ("_case", "ecb2d6dc46c4ace1"),
+   ("matchCase", "895e24e89a3ab1c5"),
    ("canAssertTypes", "4f6cf211377634a0"),
    ("getMethod", "95e70d1020e1b372"),
    ("getMethodByName", "f50f4b6cbd60d2d3"),
@@ -115,8 +117,6 @@ def sourceHashes : List (String × String) :=
    ("getWrapper", "1311018b7c7efb25"),
    ("cfg.go case selectorExpr", "5240a4a7eee28842"),
    ("cfg.go pre-order case switchStmt, typeSwitch", "773e4a50ec016090"),
-   -- 64eb664 (round 6): the extra wiring of the list expressions is under `n.kind == switchStmt`; the type-switch
-   -- clauses (kind typeSwitch, the only ones C05 models) are wired as before
    ("cfg.go post-order case switchStmt", "46d028998950625e"),
    ("cfg.go post-order case typeSwitch", "3c67baf823d5a872"),
    ("genFunctionWrapper receiver binding", "0eced356b3dccc81")]
